@@ -20,18 +20,18 @@ pub fn repair(h: &History) -> History {
         let st = &mut stacks[s.surf];
         let mut s = s.clone();
         match &s.op {
-            Op::PopClip => {
-                if !matches!(st.last(), Some((false, _))) {
-                    continue;
+            Op::PopClip => match st.iter().rposition(|b| !b.0) {
+                Some(i) => {
+                    st.remove(i);
                 }
-                st.pop();
-            }
-            Op::PopLayer => {
-                if !matches!(st.last(), Some((true, _))) {
-                    continue;
+                None => continue,
+            },
+            Op::PopLayer => match st.iter().rposition(|b| b.0) {
+                Some(i) => {
+                    st.remove(i);
                 }
-                st.pop();
-            }
+                None => continue,
+            },
             Op::PushClipRect(r) => st.push((false, Some(*r))),
             Op::PushClip(_) => st.push((false, None)),
             Op::PushLayer { .. } => st.push((true, None)),
